@@ -272,6 +272,8 @@ pub(super) struct LiveOverlay {
     parent: Option<Arc<OverlayInner>>,
     ancestor_data: Vec<Arc<Data>>,
     min_seqn: u64,
+    // Youngest first: status, root and previous root of every overlay of the chain.
+    chain: Vec<(OverlayStatus, Node, Node)>,
 }
 
 impl LiveOverlay {
@@ -285,9 +287,11 @@ impl LiveOverlay {
                 parent: None,
                 ancestor_data: Vec::new(),
                 min_seqn: 0,
+                chain: Vec::new(),
             });
         };
 
+        let mut chain = vec![(parent.data.status.clone(), parent.root, parent.prev_root)];
         let mut ancestor_data = Vec::new();
         for (supposed_ancestor, actual_ancestor) in live_ancestors.zip(parent.ancestor_data.iter())
         {
@@ -300,6 +304,11 @@ impl LiveOverlay {
             }
 
             ancestor_data.push(actual_ancestor);
+            chain.push((
+                supposed_ancestor.inner.data.status.clone(),
+                supposed_ancestor.inner.root,
+                supposed_ancestor.inner.prev_root,
+            ));
         }
 
         // verify that the chain is complete. The last ancestor's parent must either be `None` or
@@ -320,6 +329,7 @@ impl LiveOverlay {
             parent: Some(parent),
             ancestor_data,
             min_seqn,
+            chain,
         })
     }
 
@@ -445,6 +455,18 @@ impl LiveOverlay {
                 rollback_delta,
             }),
         }
+    }
+
+    /// The root of the committed state this chain of overlays stands on: the root of its youngest
+    /// committed member, or else the state its oldest member was built on. `None` for an empty
+    /// overlay.
+    pub(super) fn base_root(&self) -> Option<Node> {
+        for (status, root, _) in &self.chain {
+            if status.is_committed() {
+                return Some(*root);
+            }
+        }
+        self.chain.last().map(|(_, _, prev_root)| *prev_root)
     }
 
     /// Get the overlay's root. If this is an empty overlay, returns `None`.
